@@ -23,6 +23,7 @@
 #include <array>
 #include <cmath>
 #include <cstring>
+#include <limits>
 #include <random>
 #include <sstream>
 
@@ -95,7 +96,8 @@ int Util::parseSize(const std::string& input, int64_t* output) {
     auto num = istr.substr(pos, unit_pos - pos);
     auto unit = istr.c_str()[unit_pos];
 
-    double v;
+    // long double: a double cannot hold every 64-bit byte count exactly
+    long double v;
     try {
       v = std::stold(num, &end_pos);
     } catch (...) {
@@ -124,10 +126,10 @@ int Util::parseSize(const std::string& input, int64_t* output) {
       default:
         return -1;
     }
-    // converting a double that does not fit the integer type is undefined
+    // converting a value that does not fit the integer type is undefined
     // behaviour; the result also has to fit the int64_t output
-    constexpr double kLimit = 9223372036854775808.0; // 2^63
-    if (v >= kLimit || static_cast<double>(size) + v >= kLimit) {
+    constexpr long double kLimit = 9223372036854775808.0L; // 2^63
+    if (v >= kLimit || static_cast<long double>(size) + v >= kLimit) {
       return -1;
     }
     // add as integers: summing in double drops the low bits of large totals
@@ -161,7 +163,12 @@ int Util::parseSizeOrPercent(
       // compat - a bare number is interpreted as megabytes
       v = std::stoll(input, &end_pos);
       if (end_pos == input.length()) {
-        *output = v << 20;
+        // the megabyte count has to fit once it is turned into bytes
+        constexpr int64_t kMaxMb = std::numeric_limits<int64_t>::max() >> 20;
+        if (v > kMaxMb || v < -kMaxMb) {
+          return -1;
+        }
+        *output = v * (1LL << 20);
         return 0;
       }
 
